@@ -27,16 +27,20 @@ static validatorFunction rt_pick_validator(void)
 }
 
 /* one area with exact-size storage of arbitrary content */
+#ifdef RT_ASIZE
+#define RT_AREA_SIZE(name) uint32_t name = RT_ASIZE;
+#else
+#define RT_AREA_SIZE(name) IN(uint32_t, name)
+#endif
 #define RT_AREA(a, pfx) \
-  IN(uint32_t, pfx##_size) IN(int, pfx##_wsel) IN(int, pfx##_rsel) IN(uint16_t, pfx##_aflags) IN(uint32_t, pfx##_base) \
-  RT_ASIZE_CAP(pfx##_size) \
+  RT_AREA_SIZE(pfx##_size) IN(int, pfx##_wsel) IN(int, pfx##_rsel) IN(uint16_t, pfx##_aflags) IN(uint32_t, pfx##_base) \
   ASSUME(pfx##_size >= 1u && pfx##_wsel >= 0 && pfx##_wsel <= 2 && pfx##_rsel >= 1 && pfx##_rsel <= 2); \
-  IN_MEM(pfx##_store, (size_t)pfx##_size * sizeof(RegisterAtom)) \
+  RT_STORE_BLOCK(pfx##_store, pfx##_size) \
   IN_MEM(pfx##_areamem, sizeof(RegisterArea)) \
   RegisterArea *a = (RegisterArea *)pfx##_areamem; \
   a->read = rt_pick_read(pfx##_rsel); a->write = rt_pick_write(pfx##_wsel); \
   a->flags = pfx##_aflags; a->base = pfx##_base; a->size = pfx##_size; \
-  a->mem = (RegisterAtom *)pfx##_store;
+  a->mem = pfx##_store;
 
 /* a well-formed register `e` (a local struct) of area a, from named scalars */
 #define RT_ENTRY(e, a, pfx) \
@@ -51,6 +55,16 @@ static validatorFunction rt_pick_validator(void)
   e.check.arg.range.min.u64 = pfx##_lim0; e.check.arg.range.max.u64 = pfx##_lim1; \
   if (pfx##_check == REGV_TYPE_CALLBACK) e.check.arg.cb = rt_pick_validator(); \
   e.name = (char *)0; e.flags = pfx##_eflags; e.user = (void *)0;
+
+/* exact-size storage of n words with arbitrary content (typed: word access
+ * stays word access in the verifier) */
+#if VERIF_IS_NATIVE
+#define RT_STORE_BLOCK(name, n) \
+  RegisterAtom *name = (RegisterAtom *)verif_alloc_exact(#name, (size_t)(n) * sizeof(RegisterAtom));
+#else
+#define RT_STORE_BLOCK(name, n) \
+  RegisterAtom *name = malloc(sizeof(RegisterAtom) * (size_t)(n)); __CPROVER_assume(name != NULL);
+#endif
 
 /* exact-size block of n entries with arbitrary content */
 #if VERIF_IS_NATIVE
@@ -70,24 +84,27 @@ static validatorFunction rt_pick_validator(void)
   st_wr_address = in_wr_address; st_rd_address = in_rd_address; \
   RT_NATIVE_SEED() \
   RT_AREA(a, in_a) \
-  RT_ENTRIES_CAP() \
-  RT_ENTRY_BLOCK(in_entry_block, in_entries) \
+  RT_ENTRIES_BLOCK() \
   RegisterTable tab; RegisterTable *t = &tab; \
   t->flags = in_flags; t->areas = in_areas; t->area = a; t->entries = in_entries; \
-  t->entry = in_entry_block; \
+  t->entry = in_entry_first; \
   if ((in_flags & REG_TF_INITIALISED) == 0) { IN(int, in_entry_null) if (in_entry_null) t->entry = (RegisterEntry *)0; } \
   else if (in_idx < in_entries) { RT_ENTRY(ent, a, in_e) t->entry[in_idx] = ent; } \
   g_cell = (g_k < a->size) ? &a->mem[g_k] : &rt_elsewhere;
 
-#ifdef RT_ASIZE_MAX
-#define RT_ASIZE_CAP(x) ASSUME((x) <= RT_ASIZE_MAX);
+/* The entry array.  Default: a block of exactly in_entries entries, any
+ * 32-bit count.  With RT_EMAX: a block of RT_EMAX entries (constant size, much
+ * cheaper for the solver) whose LAST in_entries elements are the table, so
+ * that t->entry + in_entries is still exactly one past the end of the object. */
+#ifdef RT_EMAX
+#define RT_ENTRIES_BLOCK() \
+  ASSUME(in_entries <= RT_EMAX); \
+  RT_ENTRY_BLOCK(in_entry_block, RT_EMAX) \
+  RegisterEntry *in_entry_first = in_entry_block + (RT_EMAX - in_entries);
 #else
-#define RT_ASIZE_CAP(x)
-#endif
-#ifdef RT_ENTRIES_MAX
-#define RT_ENTRIES_CAP() ASSUME(in_entries <= RT_ENTRIES_MAX);
-#else
-#define RT_ENTRIES_CAP()
+#define RT_ENTRIES_BLOCK() \
+  RT_ENTRY_BLOCK(in_entry_block, in_entries) \
+  RegisterEntry *in_entry_first = in_entry_block;
 #endif
 
 #if VERIF_IS_NATIVE
